@@ -116,7 +116,8 @@ def work(item):
                 va = adv.VParallelAdvection.__new__(adv.VParallelAdvection)
 
                 def step(f, dt_, c, rr):
-                    rec.append(('step', F.where(f[0]), c, rr))
+                    # what the 1-D step depends on is the displacement c*dt (VParallelAdvection.step uses the product only)
+                    rec.append(('step', F.where(f[0]), None if c is None else c * dt_, rr))
                 va.step = step
 
                 class PG:
@@ -129,10 +130,15 @@ def work(item):
                                 der[a, b] = symx.uf('PG', K(r[gi[0]]), K(z[gz]), K(q[gq]))
                 L = h4.getLayout('v_parallel')
                 pgv = np.empty([L.shape[0], nz, nq], dtype=object)
+                rec.append(('dt', Fr(1, 2)))
                 va.gridStep(g, ph, PG(), pgv, K(Fr(1, 2)))
                 if op == 'vpar_keep':
+                    # the kept gradient is used twice (Strang splitting does that), with different time steps
                     del rec[:]
+                    rec.append(('dt', Fr(1, 2)))
                     va.gridStepKeepGradient(g, pgv, K(Fr(1, 2)))
+                    rec.append(('dt', Fr(1, 3)))
+                    va.gridStepKeepGradient(g, pgv, K(Fr(1, 3)))
             elif op.startswith('vpar_pg'):
                 # the REAL ParallelGradient (finite-difference order = last character) driven by the real gridStep; only the 1-D
                 # advection step is a recorder.  The speeds handed to it are compared with those of a one-process run.
@@ -144,7 +150,8 @@ def work(item):
                 va = adv.VParallelAdvection.__new__(adv.VParallelAdvection)
 
                 def step(f, dt_, c, rr):
-                    rec.append(('step', F.where(f[0]), c, rr))
+                    # what the 1-D step depends on is the displacement c*dt (VParallelAdvection.step uses the product only)
+                    rec.append(('step', F.where(f[0]), None if c is None else c * dt_, rr))
                 va.step = step
                 pgr = adv.ParallelGradient(qb, eta, sw.getLayout('v_parallel_1d'), consts, order)
                 L = h4.getLayout('v_parallel')
@@ -231,7 +238,11 @@ def work(item):
         elif op in ('vpar', 'vpar_keep'):
             for rk, (_, h4, rec) in enumerate(val):
                 L = h4.getLayout('v_parallel')
+                cur_dt = Fr(1, 2)
                 for e in rec:
+                    if e[0] == 'dt':
+                        cur_dt = e[1]
+                        continue
                     if e[0] == 'pg':
                         _, gr, i, shp = e
                         if gr != i + int(L.starts[0]):
@@ -241,9 +252,9 @@ def work(item):
                         _, gidx, c, rr = e
                         ir, iq, iz = gidx[0], gidx[1], gidx[2]
                         seen.add((ir, iq, iz))
-                        exp = symx.uf('PG', K(r[ir]), K(z[iz]), K(q[iq]))
+                        exp = symx.uf('PG', K(r[ir]), K(z[iz]), K(q[iq])) * K(cur_dt)
                         bad.append(toreal(zt(K(c) if c is not None else K(10 ** 9))) != toreal(zt(exp)))
-                        where.append(('v-parallel speed at (r,theta,z)', rk, (ir, iq, iz), -1))
+                        where.append(('v-parallel displacement (speed x dt, dt = %s) at (r,theta,z)' % cur_dt, rk, (ir, iq, iz), -1))
                         bad.append(toreal(zt(K(rr))) != z3.RealVal(r[ir]))
                         where.append(('v-parallel radius', rk, (ir, iq, iz), -1))
             if len(seen) != nr * nq * nz:
@@ -375,7 +386,7 @@ def float_replay(allm, item, hits):
                     dist.fill_grid(g, Fd)
                     dist.fill_grid(ph, Pd)
                     va = adv.VParallelAdvection.__new__(adv.VParallelAdvection)
-                    va.step = lambda f, dt_, c, rr: f.__setitem__(slice(None), f * 0 + c + 1000 * rr)
+                    va.step = lambda f, dt_, c, rr: f.__setitem__(slice(None), f * 0 + c * dt_ + 1000 * rr)
 
                     class PG:
                         def parallel_gradient(self, phi_r, i, der, *more, **kw):
@@ -386,6 +397,8 @@ def float_replay(allm, item, hits):
                     if op == 'vpar_keep':
                         dist.fill_grid(g, Fd)
                         va.gridStepKeepGradient(g, pgv, 0.5)
+                        dist.fill_grid(g, Fd)
+                        va.gridStepKeepGradient(g, pgv, 0.25)
                     return L, g.getAllData().copy()
                 if op.startswith('vpar_pg'):
                     g = m['grid'].Grid(eta, [None] * 4, h4, 'v_parallel', comm=comm)
@@ -393,7 +406,7 @@ def float_replay(allm, item, hits):
                     dist.fill_grid(g, Fd)
                     dist.fill_grid(ph, Pd)
                     va = adv.VParallelAdvection.__new__(adv.VParallelAdvection)
-                    va.step = lambda f, dt_, c, rr: f.__setitem__(slice(None), f * 0 + c)
+                    va.step = lambda f, dt_, c, rr: f.__setitem__(slice(None), f * 0 + c * dt_)
                     pgr = adv.ParallelGradient(qb, eta, sw.getLayout('v_parallel_1d'), FC, int(op[-1]))
                     L = h4.getLayout('v_parallel')
                     pgv = np.empty([L.shape[0], nz, nq])
@@ -434,6 +447,13 @@ def float_replay(allm, item, hits):
                 for iv in range(nv):
                     want[:, :, iz, iv] = float(np.sum(Pd[:, :, iz])) + 1000.0 * v[iv]
             abs_err = float(np.max(np.abs(serial - want)))
+        if op in ('vpar', 'vpar_keep'):
+            # absolute reference for the recording kernels of this replay: every v line holds 7 phi(r,theta,z) dt + 1000 r
+            last_dt = 0.25 if op == 'vpar_keep' else 0.5
+            want = np.empty(SHAPE)
+            for ir in range(nr):
+                want[ir] = (7.0 * Pd[ir] * last_dt + 1000.0 * r[ir])[:, :, None]
+            abs_err = float(np.max(np.abs(serial - want)))
     except Exception as e:
         return 'exception %s: %s' % (type(e).__name__, e)
     finally:
@@ -441,6 +461,9 @@ def float_replay(allm, item, hits):
         numenv.enable()
     if err > 1e-9:
         return 'operator %s on process grid %s differs from the serial run by %.3g' % (op, list(nprocs), err)
+    if abs_err > 1e-6 and op in ('vpar', 'vpar_keep'):
+        return 'operator %s (one process): the 1-D steps do not receive gradient x dt and radius of their own (r, theta, z) line%s (deviation %.3g)' % (
+            op, ', second use of the kept gradient with another time step' if op == 'vpar_keep' else '', abs_err)
     if abs_err > 1e-6:
         return 'operator %s (one process): the per-plane kernel does not receive the potential plane and velocity of its own (z, v) slice (deviation %.3g)' % (op, abs_err)
     if slice_errs and max(slice_errs) > 1e-9:
